@@ -38,6 +38,8 @@ CORES = {
                       {"name": "AttrCap", "bugs": ["NoUpdate", "Gt", "NoCount"], "sanity": "NeverFull"}]},
     "D": {"check": "C01", "what": "BSP counting core: queue <= QCap, batch <= MaxBatch at export, offered = queued + held + batch + exported + dropped + abandoned",
           "modules": [{"name": "BSPCount", "bugs": ["Gt", "NoCount", "Le"], "sanity": "NeverFullBatch"}]},
+    "E": {"check": "C03", "what": "tracestate Insert/Delete (trace/tracestate.go): <= N members, unique keys, newest first, overflow drops only the right-most (= oldest) member",
+          "modules": [{"name": "TraceStateIns", "bugs": ["First", "NoMove", "Le"], "sanity": "NeverFull"}]},
 }
 
 
@@ -137,6 +139,11 @@ def _equiv_jobs(core, thorough):
             jobs.append(("BSPCount qcap=2 maxbatch=2 blocking=%s 1x3 spans f1 s1" % blocking,
                          [("MC_BSPCount_EquivNew", dict(kv, MAXOFFER=3))],
                          ("MC_BSPCount_EquivOld", dict(kv, SPANSPER=3, PRODUCERS='{"p1"}'), ["BSP"]), "subset"))
+    if core == "E":
+        for n in ([2] if not thorough else [1, 2, 3]):
+            kv = {"N": n, "MAXSTEPS": 5}
+            jobs.append(("TraceStateIns N=%d 4 keys <=5 inserts" % n, [("MC_TraceStateIns_EquivNew", kv)],
+                         ("MC_TraceStateIns_EquivOld", kv, ["TraceContext"]), "equal"))
     return jobs
 
 
